@@ -89,6 +89,19 @@ simmon_fn!(simmon_c15, "C15");
 simmon_fn!(simmon_c16, "C16");
 simmon_fn!(simmon_c19, "C19");
 
+macro_rules! wrap_fn {
+    ($name:ident, $id:expr) => {
+        fn $name(ctx: &Ctx, case: u64, acc: &mut Acc) -> Verdict {
+            crate::work::wrapmon::wrap_case(ctx, case, acc, Arm::only($id))
+        }
+    };
+}
+wrap_fn!(wrap_c08, "C08");
+wrap_fn!(wrap_c10, "C10");
+wrap_fn!(wrap_c11, "C11");
+wrap_fn!(wrap_c12, "C12");
+wrap_fn!(wrap_c13, "C13");
+
 macro_rules! sweep_fn {
     ($name:ident, $id:expr) => {
         fn $name(ctx: &Ctx, case: u64, acc: &mut Acc) -> Verdict {
@@ -141,6 +154,7 @@ pub fn c08() -> Check {
             Workload { name: "driver", f: driver_c08, quick: 30_000, thorough: 1_500_000, flav: Flav::Checked },
             Workload { name: "exh", f: exh_c08, quick: 1_024, thorough: 1_024, flav: Flav::Checked },
             Workload { name: "simmon", f: simmon_c08, quick: 1_500, thorough: 80_000, flav: Flav::Checked },
+            Workload { name: "wrap", f: wrap_c08, quick: 240, thorough: 12_000, flav: Flav::Checked },
             Workload { name: "accrt", f: crate::checks::c08x::accrt_case, quick: 8_000, thorough: 400_000, flav: Flav::Checked },
         ],
         exhaustive: false,
@@ -174,6 +188,7 @@ pub fn c10() -> Check {
             Workload { name: "driver", f: driver_c10, quick: 30_000, thorough: 1_500_000, flav: Flav::Checked },
             Workload { name: "exh", f: exh_c10, quick: 1_024, thorough: 1_024, flav: Flav::Checked },
             Workload { name: "simmon", f: simmon_c10, quick: 1_500, thorough: 80_000, flav: Flav::Checked },
+            Workload { name: "wrap", f: wrap_c10, quick: 240, thorough: 12_000, flav: Flav::Checked },
         ],
         exhaustive: false,
     }
@@ -190,6 +205,7 @@ pub fn c11() -> Check {
             Workload { name: "driver", f: driver_c11, quick: 30_000, thorough: 1_500_000, flav: Flav::Checked },
             Workload { name: "exh", f: exh_c11, quick: 1_024, thorough: 1_024, flav: Flav::Checked },
             Workload { name: "simmon", f: simmon_c11, quick: 1_500, thorough: 80_000, flav: Flav::Checked },
+            Workload { name: "wrap", f: wrap_c11, quick: 240, thorough: 12_000, flav: Flav::Checked },
             Workload { name: "table", f: crate::checks::tables::c11_table, quick: 9_520, thorough: 9_520, flav: Flav::Checked },
         ],
         exhaustive: false,
@@ -207,6 +223,7 @@ pub fn c12() -> Check {
             Workload { name: "driver", f: driver_c12, quick: 30_000, thorough: 1_500_000, flav: Flav::Checked },
             Workload { name: "exh", f: exh_c12, quick: 1_024, thorough: 1_024, flav: Flav::Checked },
             Workload { name: "simmon", f: simmon_c12, quick: 1_500, thorough: 80_000, flav: Flav::Checked },
+            Workload { name: "wrap", f: wrap_c12, quick: 240, thorough: 12_000, flav: Flav::Checked },
             Workload { name: "table", f: crate::checks::tables::c12_table, quick: 1_080, thorough: 1_080, flav: Flav::Checked },
         ],
         exhaustive: false,
@@ -224,6 +241,7 @@ pub fn c13() -> Check {
             Workload { name: "driver", f: driver_c13, quick: 30_000, thorough: 1_500_000, flav: Flav::Checked },
             Workload { name: "exh", f: exh_c13, quick: 1_024, thorough: 1_024, flav: Flav::Checked },
             Workload { name: "simmon", f: simmon_c13, quick: 1_500, thorough: 80_000, flav: Flav::Checked },
+            Workload { name: "wrap", f: wrap_c13, quick: 240, thorough: 12_000, flav: Flav::Checked },
         ],
         exhaustive: false,
     }
